@@ -14,6 +14,8 @@ package rules
 //	R-C20-4  handler order and idempotence of Supervisor.handleEvent,
 //	         RawConfigTrafficController.handleEvent and the TrafficController
 //	         Create/Update/Apply/Delete methods (under tc.mutex)                        [c20_handlers.go]
+//	R-C20-5  a namespace leaves TrafficController.namespaces only when every entity map of it is
+//	         known empty (own probe per map) or drained, under tc.mutex                 [c20_namespace.go]
 //
 // Verdict on today's tree: R-C20-3 is violated (genuine defect, triaged: a name whose kind
 // changes is filed under "updated"; Inherit type-asserts the old instance → recovered panic,
@@ -101,6 +103,7 @@ func c20(c *core.Ctx) string {
 	c20Recovery(c)
 	c20Diff(c)
 	c20Handlers(c)
+	c20Namespaces(c)
 	return "Static shape rules on the object lifecycle machinery: who may call lifecycle callbacks and that the wrappers recover every panic (whole-module call-site scan + path-sensitive panic exits); the registry diff as an exhaustive decision table over the abstract paths of one applyConfig iteration (facts: build error, predecessor found, Equals outcome, kind equality; events: stores to deleted/created/updated/entities); handler loops and TrafficController methods as typestate rules (lookup outcome → lifecycle wrapper → map store/removal, lock held). Not decided: exactly-once over whole snapshot histories (conjunction + induction is informal), what each kind's callbacks do, goroutine interleavings."
 }
 
